@@ -13,7 +13,7 @@ PQ22 == P22(IdxQ)
 PT22 == P22(IdxT)
 \* 3 threads x 1 insert
 PT31 == {f \in [1..3 -> [1..1 -> IdxT]] : f[1][1] <= f[2][1] /\ f[2][1] <= f[3][1]}
-PQ31 == {f \in PT31 : <<f[1][1], f[2][1], f[3][1]>> \in {<<0, 1, 9>>, <<0, 0, 4>>, <<2, 9, 15>>}}
+PQ31 == {f \in PT31 : <<f[1][1], f[2][1], f[3][1]>> \in {<<0, 1, 9>>, <<0, 0, 4>>}}
 \* 3 threads: 2,1,1 inserts
 PT32 == {f \in [1..3 -> SeqsUpTo(IdxQ, 2)] : f[1] = <<0, 9>> /\ f[2] = <<4>> /\ f[3] \in {<<0>>, <<9>>}}
 \* replay space (quick): programs whose walks are replayed on the real SparseBitMap<1>
